@@ -6,8 +6,8 @@ namespace JediModel.Props.C13
 open JediModel.ObjModel
 open JediModel.Gen
 
-/-- the configuration read from the source, with the three shape flags left open -/
-def cfgWith (metaFlag hasIterFlag boolFlag : Bool) : Cfg :=
+/-- the source as it is -/
+def genCfg : Cfg :=
   { allowedDescr := C13.allowedDescriptorAccess
     allowedGetitem := C13.allowedGetitemTypes
     isDescriptorCond := C13.isDescriptorCond
@@ -17,11 +17,8 @@ def cfgWith (metaFlag hasIterFlag boolFlag : Bool) : Cfg :=
     getitemRefuses := C13.getitemRefuses
     iterListRefuses := C13.iterListRefuses
     mixedUsesCompiled := C13.mixedGetitemUsesCompiled
-    metaHitReportsGet := metaFlag
-    hasIterExecutes := hasIterFlag
-    boolExecutes := boolFlag }
-
-/-- the source as it is -/
-def genCfg : Cfg := cfgWith C13.metaHitReportsGet C13.hasIterExecutes C13.boolExecutes
+    boolRefuses := C13.boolRefuses
+    boolLookupOrder := C13.boolLookupOrder
+    builtinMethodTypes := C13.builtinMethodTypes }
 
 end JediModel.Props.C13
